@@ -146,3 +146,73 @@ Theorem rename_refuted :
   /\ (let trf := trace Fixed fs0 (three_searches [7; 8] [7; 8] [7; 8]) in
       ok_trace [1; 1001; 2001] trf = true /\ csv_ids (disk (exec fs0 trf)) = [2001; 1001; 1]).
 Proof. vm_compute. repeat split; reflexivity. Qed.
+
+(* ---------- completeness after a restart: what the new search gathered is in the new results.csv ---------- *)
+Lemma dump_flush_pending v s seen fs new : J s fs seen -> pending (fst (fst (dump_ops v s (new, true)))) = [].
+Proof.
+  destruct s as [st tbl]. unfold J. cbn [fst snd]. intros [_ HJ]. unfold dump_ops. cbn [fst snd].
+  set (st1 := mkD (columns st) (started st) (nobj st) (pending st ++ new)).
+  assert (Hp : pending (fst (dump (infer_of v) st1 true)) = []).
+  { destruct HJ as [(Hs & Hc & _)|(Hs & h & c & n & Hc & _)].
+    - destruct (pending st1) as [|j t] eqn:Ep; [rewrite (dump_nil _ st1 true Ep); exact Ep|].
+      destruct (find (fun r => is_success r || true) (map (mkresult (infer_of v (nobj st1) (pending st1))) (pending st1))) as [r|] eqn:Ef.
+      + rewrite (dump_first _ st1 true j t r Ep Hs Ef). reflexivity.
+      + exfalso. rewrite Ep in Ef. cbn [map find] in Ef. rewrite orb_true_r in Ef. discriminate.
+    - destruct (pending st1) as [|j t] eqn:Ep; [rewrite (dump_nil _ st1 true Ep); exact Ep|].
+      rewrite (dump_started _ st1 true j t h Ep Hs Hc). reflexivity. }
+  destruct (pending st1); [exact Hp|]. destruct (columns (fst (dump (infer_of v) st1 true))); [|exact Hp].
+  destruct (started st1); [exact Hp|]. destruct v; exact Hp.
+Qed.
+
+Lemma J_complete s fs seen : J s fs seen -> pending (fst s) = [] ->
+  seen = [] \/ exists n c, fget (disk fs) fresults = Some (LH n :: c) /\ ids c = map jid seen.
+Proof.
+  intros [_ [(_ & _ & _ & Hp & _)|(_ & h & c & n & _ & _ & _ & _ & _ & _ & Hf & _ & _ & Hi)]] H0.
+  - left. rewrite <- Hp. exact H0.
+  - right. exists n, c. split; assumption.
+Qed.
+
+Lemma cands_ok_app a : forall x b, cands_ok x (a ++ b) -> cands_ok x a /\ cands_ok (fold_left (act Fixed) a x) b.
+Proof.
+  induction a as [|y t IH]; intros x b H; cbn [app cands_ok fold_left] in *; [split; [exact I|exact H]|].
+  destruct H as [H1 H2]. destruct (IH _ _ H2) as [H3 H4]. repeat split; assumption.
+Qed.
+
+Lemma seen_after_app a : forall seen b, seen_after seen (a ++ b) = seen_after (seen_after seen a) b.
+Proof. induction a as [|[c|e|] t IH]; intros seen b; cbn [app seen_after]; [reflexivity|apply IH..]. Qed.
+
+Lemma act_ids_app a b : act_ids (a ++ b) = act_ids a ++ act_ids b.
+Proof.
+  induction a as [|[c|e|] t IH]; cbn [app act_ids]; [reflexivity|exact IH| |exact IH]. rewrite IH. apply app_assoc.
+Qed.
+
+(* a restart whose new search ends with its forced dump (optionally followed by the Pareto step): results.csv holds exactly
+   the evaluations the new search gathered - whatever the kill left in the directory, stale temporary file included *)
+Theorem fixed_restart_complete d0 cands pre new tail :
+  cands_ok (sinit, mkFs d0 None, []) (ANew cands :: pre ++ ADump (new, true) :: tail) -> (tail = [] \/ tail = [AEnd]) ->
+  let acts := ANew cands :: pre ++ ADump (new, true) :: tail in
+  let seen := seen_after [] (pre ++ ADump (new, true) :: tail) in
+  let d := disk (exec (mkFs d0 None) (trace Fixed (mkFs d0 None) acts)) in
+  seen = [] \/ exists n c, fget d fresults = Some (LH n :: c) /\ ids c = map jid seen.
+Proof.
+  intros [Hca Hcr] Htail. cbn zeta. rewrite trace_unfold. cbn [fold_left act fst snd disk]. cbn [act fst snd disk] in Hca, Hcr.
+  set (known := act_ids (pre ++ ADump (new, true) :: tail)).
+  destruct (new_ops_fixed d0 cands known Hca) as (J1 & _ & _ & _ & _). cbn zeta in *.
+  set (ops := new_ops Fixed d0 cands) in *.
+  assert (Hg1 : Good known (disk (exec (mkFs d0 None) ops))).
+  { destruct J1 as [_ [(_ & _ & _ & _ & H0)|(Hst & _)]]; [left; exact H0|cbn in Hst; discriminate]. }
+  (* the whole rest: trace and final state *)
+  destruct (session_from (pre ++ ADump (new, true) :: tail) sinit (exec (mkFs d0 None) ops) ([] ++ ops) [] known J1 Hg1
+              (incl_refl _) Hcr) as (tr' & E1 & E2 & J2 & _ & _).
+  cbn zeta in E1, E2, J2. rewrite E1. cbn [app]. rewrite exec_app, <- E2.
+  apply (J_complete _ _ _ J2).
+  (* nothing is pending at the end *)
+  destruct (cands_ok_app pre _ _ Hcr) as [Hc1 Hc2].
+  assert (Hk1 : incl (map jid [] ++ act_ids pre) known).
+  { unfold known. rewrite act_ids_app. cbn [map app]. apply incl_appl, incl_refl. }
+  destruct (session_from pre sinit (exec (mkFs d0 None) ops) ([] ++ ops) [] known J1 Hg1 Hk1 Hc1) as (tr1 & _ & _ & J3 & _ & _).
+  cbn zeta in J3. rewrite fold_left_app. cbn [fold_left].
+  destruct (fold_left (act Fixed) pre (sinit, exec (mkFs d0 None) ops, [] ++ ops)) as [[s1 fs1] t1]. cbn [fst snd] in J3.
+  assert (Hp : pending (fst (fst (dump_ops Fixed s1 (new, true)))) = []) by (apply (dump_flush_pending Fixed s1 _ fs1 new J3)).
+  destruct Htail as [->| ->]; cbn [fold_left act fst snd]; exact Hp.
+Qed.
